@@ -77,6 +77,10 @@ func effectsFor(p *load.Program) *effectsInfo {
 		return e
 	}
 	info := &effectsInfo{byName: map[string]*ssa.Function{}, sites: map[ssa.CallInstruction][]*ssa.Function{}}
+	effects.ExactLenOracle = func(v ssa.Value, b *ssa.BasicBlock, n int64) bool {
+		a := guardsEngine(p).Analyze(b.Parent())
+		return a != nil && a.Converged && a.ReachableBlock(b) && a.EntailsEq(b, a.LenOf(v).Plus(-n))
+	}
 	info.Funcs = moduleFuncs(p)
 	for _, f := range info.Funcs {
 		info.byName[effects.ShortFunc(f)] = f
